@@ -58,7 +58,8 @@ def edit_new_sig(rng, new):
     for _ in range(rng.choice([0, 1, 1, 2])):
         a, m = rng.choice(models)
         fields = [f for f in m.field_sigs if not f.get_attr_value('primary_key')]
-        k = rng.choice(['retarget', 'explicit_default', 'reorder_indexes', 'retype', 'meta_pair', 'meta_pair'])
+        k = rng.choice(['retarget', 'explicit_default', 'explicit_value', 'reorder_indexes', 'retype', 'meta_pair',
+                        'meta_pair'])
         if k == 'retarget':
             rel = [f for f in fields if f.related_model and f.field_type.__name__ != 'ManyToManyField']
             others = ['%s.%s' % (b.app_id, x.model_name) for b, x in models]
@@ -71,6 +72,14 @@ def edit_new_sig(rng, new):
             attr = rng.choice(['null', 'unique', 'db_column', 'max_length'])
             if attr not in f.field_attrs:
                 f.field_attrs[attr] = f.get_attr_default(attr)
+                tags.append(k)
+        elif k == 'explicit_value' and fields:
+            # a boolean attribute stated explicitly with either value, whatever the field type's own default is
+            # (ForeignKey / OneToOneField default to db_index=True, everything else to False)
+            f = rng.choice([x for x in fields if x.related_model] or fields)
+            attr = rng.choice(['db_index', 'db_index', 'null', 'unique'])
+            if f.field_type.__name__ != 'ManyToManyField':
+                f.field_attrs[attr] = rng.choice([True, False])
                 tags.append(k)
         elif k == 'reorder_indexes' and len(m.index_sigs) >= 2:
             m.index_sigs.reverse()
@@ -194,6 +203,9 @@ def run(ctx):
             else:
                 agree = (ma.get('residual') == after['residual'] and ma.get('residual_rev') == after['residual_rev'])
             ctx.corr_case('closure', bool(agree), case=case, model=ma, impl=after)
+            # "the model explains this case" (the premise of the attributions below) means all of it: the same
+            # difference, the same hint, the same residue
+            agree = bool(agree) and out.get('diff') == rd and out.get('hint') == rh
         # ---- property oracle on the real code ------------------------------------------------
         rep = {'spec_old': dbrig.spec_from_sig(old), 'edits': tags,
                'old': sigs.abs_sig(old), 'new': sigs.abs_sig(new), 'observed': after}
